@@ -659,6 +659,51 @@ func (sc *scenario) mutate(n *node.Node, base []*ledger.Block, h int, kind strin
 	return chain
 }
 
+// splice: base with the block at a height s (0 < s < tip) replaced by a competitor (same content, the reward paid to
+// another wallet), the blocks above s kept as they are, and one more valid reward-only block on top
+func (sc *scenario) splice(base []*ledger.Block) []*ledger.Block {
+	r := sc.rng
+	S := sc.w.S
+	s := 1 + r.Intn(len(base)-2)
+	rb, err := node.FromBlock(base[s])
+	if err != nil {
+		return nil
+	}
+	adv := pick(r, sc.w.Wallets)
+	var txs []*node.RawTx
+	changed := false
+	for _, t := range rb.Txs() {
+		if len(t.Inputs) == 0 && len(t.Outputs) == 1 && t.Outputs[0].Address != adv.Address {
+			t = node.RewardRaw(adv.Address, t.Outputs[0].IsYielding, t.Timestamp, t.Outputs[0].Value)
+			changed = true
+		}
+		txs = append(txs, t)
+	}
+	if !changed {
+		return nil
+	}
+	rb.SetTxs(txs...)
+	comp, err := rb.Decode() // previous hash unchanged: links to base[s-1]
+	if err != nil {
+		return nil
+	}
+	tipRaw, err := node.FromBlock(base[len(base)-1])
+	if err != nil {
+		return nil
+	}
+	ts := base[len(base)-1].Timestamp() + S.Interval
+	nb := &node.RawBlock{Timestamp: ts}
+	nb.SetTxs(node.RewardRaw(adv.Address, false, ts, 0))
+	top, err := node.Relink([]*node.RawBlock{tipRaw, nb})
+	if err != nil {
+		return nil
+	}
+	res := append([]*ledger.Block{}, base[:s]...)
+	res = append(res, comp)
+	res = append(res, base[s+1:]...)
+	return append(res, top[1])
+}
+
 type spendRef struct {
 	id      string
 	idx     uint16
@@ -723,7 +768,25 @@ func (sc *scenario) genNeighbours(n *node.Node, now int64) []trace.Neighbour {
 			}
 		}
 		switch {
+		case roll < 4 && len(n.AllBlocks()) >= 4 && uint64(len(n.AllBlocks())) < sc.w.S.BlocksLimit:
+			// a SPLICED chain served to the whole-chain fallback only (the incremental request fails): the host's own
+			// chain with one block below the tip replaced by a valid competitor of that height — the host's blocks above
+			// it are re-used unchanged and still point to the replaced block — plus a valid new tip
+			if ch := sc.splice(n.AllBlocks()); ch != nil {
+				page := sc.w.S.BlocksLimit
+				res = append(res, trace.Neighbour{Target: target, Kind: "splice", Answer: func(h uint64, _ int) ([]byte, error) {
+					if h > 0 {
+						return nil, fmt.Errorf("down")
+					}
+					return json.Marshal(trace.PageOf(ch, 0, page))
+				}})
+				continue
+			}
+			fallthrough
 		case roll < 40 && len(others) > 0:
+			if len(others) == 0 {
+				continue
+			}
 			p := pick(r, others)
 			nb := trace.Honest(p)
 			nb.Target = target
@@ -1495,6 +1558,8 @@ func (sc *scenario) runTips() {
 				}
 			}
 			r.Shuffle(len(nb), func(i, j int) { nb[i], nb[j] = nb[j], nb[i] })
+			tipH := uint64(len(host.AllBlocks()) - 1)
+			w.Read(host, tipH) // what the host serves for its tip before the round … (and after it, below)
 			var v *trace.Verdict
 			if r.Intn(3) == 0 {
 				// the host's next block is produced while the round (which would swap its tip) waits
@@ -1507,6 +1572,7 @@ func (sc *scenario) runTips() {
 					sc.mark("adopted")
 				}
 			}
+			w.Read(host, tipH)
 		}
 		// converge on one chain before the next round of competing tips
 		for _, f := range []*node.Node{b, c} {
